@@ -38,8 +38,8 @@ ASSUMPTIONS = ['children are forked from the worker and re-run the whole history
                'elfi.store.open is a module-global lookup; it is replaced by a counting/killing proxy for .npy files (no source change)']
 EXHAUSTIVE_NOTE = 'kill points of each generated history are enumerated completely; the set of histories is sampled'
 CONFIG = {
-    'quick': {'shards': 16, 'cases': 5, 'timeout': 600, 'floor': 20},
-    'thorough': {'shards': 32, 'cases': 60, 'timeout': 3000, 'floor': 500},
+    'quick': {'shards': 16, 'cases': 20, 'timeout': 600, 'floor': 80},
+    'thorough': {'shards': 32, 'cases': 360, 'timeout': 5400, 'floor': 3000},
 }
 REQUIRED = ['op_snapshot', 'op_restore', 'op_read', 'kill_points_executed', 'kill_states_loaded', 'model_comparisons', 'npload_checks', 'kind_array', 'kind_store', 'kind_pool',
             'op_append', 'op_overwrite', 'op_delete', 'op_flush', 'op_reopen', 'op_pickle', 'kills_during_truncate', 'kills_during_write']
